@@ -73,7 +73,13 @@ def checkLine (oc : Bool) (line : String) : Option (List String × String) :=
   | [("EF" :: _pre), res] =>
     -- Debug formatting with every kind of format option: must not panic (C04); what it renders is not constrained
     some ((if res == ["-"] then [] else ["UNSAT C04", "UNSAT C19"]), "ef_nontrivial")
+  | [("RTE" :: pre), impl, stdr] =>
+    -- `read_to_end` through an adapter: call for call what std's adapter over twin readers gives (C08 / C09)
+    let tag := if pre.head? == some "chain" then "C08" else "C09"
+    some ((if impl == stdr then [] else ["DRIFT", s!"DIFF {tag}", s!"UNSAT {tag}"]), "rte_nontrivial")
   | [("BW" :: pre), impl] => (FBV.DrvAD.checkBW pre impl).map fun (v, _) => (v, "bw_nontrivial")
+  | [("TC" :: pre), op, post] =>
+    (FBV.DrvT1.checkTC pre op post).map fun (v, nt) => (v, if nt then "tc_nontrivial" else "tc_trivial")
   | [("TV" :: pre), op, out, post] =>
     (FBV.DrvT1.checkTV oc pre op out post).map fun (v, nt) => (v, if nt then "tv_nontrivial" else "tv_trivial")
   | [("T0" :: pre), post] => (FBV.DrvT1.checkT0 pre post).map fun v => (v, "t0")
